@@ -145,10 +145,10 @@ func engineFENSession(c *fw.Ctx, r *rand.Rand, start ref.Pos, bias gen.Bias, ste
 
 func init() {
 	fw.Register(&fw.Monitor{
-		ID:        "C14",
-		Level:     "exploration",
-		Technique: "runtime differential oracle: FEN codec vs independent FEN printer on generated positions; engine-reported FEN vs reference game model over generated move / take-back sessions",
-		Rule: "round trips: generated positions (playouts, synthetic with partial rights and e.p., tactical shapes) x random clocks incl. 0, 99-101, up to 10^6, both colours: Encode == oracle FEN, Decode(Encode(x)) == x, Encode(Decode(canonical)) == canonical; engine sessions: Reset(FEN with clocks) then random legal moves and take-backs, Position() compared with the reference game's FEN after every operation; distinct = distinct FEN strings + distinct sessions",
+		ID:          "C14",
+		Level:       "exploration",
+		Technique:   "runtime differential oracle: FEN codec vs independent FEN printer on generated positions; engine-reported FEN vs reference game model over generated move / take-back sessions",
+		Rule:        "round trips: generated positions (playouts, synthetic with partial rights and e.p., tactical shapes) x random clocks incl. 0, 99-101, up to 10^6, both colours: Encode == oracle FEN, Decode(Encode(x)) == x, Encode(Decode(canonical)) == canonical; engine sessions: Reset(FEN with clocks) then random legal moves and take-backs, Position() compared with the reference game's FEN after every operation; distinct = distinct FEN strings + distinct sessions",
 		Assumptions: []string{"reference FEN printer and game model (package ref)"},
 		Setup:       validateOracle,
 		Timeout:     minutes(10, 60),
@@ -199,10 +199,10 @@ func init() {
 	})
 
 	fw.Register(&fw.Monitor{
-		ID:        "C19",
-		Level:     "exploration",
-		Technique: "runtime robustness monitor: generated and mutated strings fed to the decoders under a panic trap (and a per-case log for process-fatal errors), acceptance compared with the rules oracle",
-		Rule: "FEN strings: valid FENs mutated by byte/rune insert/delete/replace/duplicate, field swaps, digit runs, non-ASCII digits and letters, over-long boards, huge numbers, NULs, 64 KiB inputs, plus all strings of a small hostile alphabet for squares and a sample for moves; move strings: for generated positions every legal move (all case variants), every pseudo-legal illegal one and random syntactically valid / near-valid strings through Engine.Move, acceptance compared with the oracle's legal set; distinct = distinct input strings",
+		ID:          "C19",
+		Level:       "exploration",
+		Technique:   "runtime robustness monitor: generated and mutated strings fed to the decoders under a panic trap (and a per-case log for process-fatal errors), acceptance compared with the rules oracle",
+		Rule:        "FEN strings: valid FENs mutated by byte/rune insert/delete/replace/duplicate, field swaps, digit runs, non-ASCII digits and letters, over-long boards, huge numbers, NULs, 64 KiB inputs, plus all strings of a small hostile alphabet for squares and a sample for moves; move strings: for generated positions every legal move (all case variants), every pseudo-legal illegal one and random syntactically valid / near-valid strings through Engine.Move, acceptance compared with the oracle's legal set; distinct = distinct input strings",
 		Assumptions: []string{"a move string denotes a move in coordinate notation with the case-insensitivity the parsers document (files A-H, promotion letters in either case)"},
 		Setup:       validateOracle,
 		Timeout:     minutes(10, 60),
